@@ -455,3 +455,19 @@ class FmtLib:
 
     def str_chars(self, it, st, inst, args, call):
         return Top(ret_ty(it, call), "chars")
+
+
+def install_bits(it):
+    """count_ones & friends as expression functions."""
+    path = lambda rx: (lambda inst, _rx=re.compile(rx): bool(_rx.search(inst["path"])))
+
+    def count_ones(it_, st, inst, args, call):
+        a = args[0]
+        if isinstance(a, Conc):
+            return Conc(bin(a.v & ((1 << 128) - 1)).count("1"))
+        return Expr("popcount", (a,), (32, False))
+
+    it.summaries.append((path(r"^core::num::<impl u(8|16|32|64|size)>::count_ones$"), count_ones))
+
+
+FUNCS["popcount"] = lambda v: bin(v).count("1")
